@@ -100,6 +100,10 @@ func check(c Case) (kind, what string) {
 			o := a.FromXYZ(a.ToXYZ(linear.RGB{R: c.V[0], G: c.V[1], B: c.V[2]}))
 			got, want = ref.V3{float64(o.R), float64(o.G), float64(o.B)}, in
 			tol = 2e-6 * scale
+		case "mutated":
+			// a Color built from an unrelated XYZ value, its fields then overwritten: ToXYZ must follow the fields
+			o := a.MutateToXYZ(ciexyz.Color{X: 0.2 + c.V[2]/7, Y: 0.3, Z: 0.1 + c.V[0]/5}, linear.RGB{R: c.V[0], G: c.V[1], B: c.V[2]})
+			got, want = ref.V3{float64(o.X), float64(o.Y), float64(o.Z)}, m.to.MulV(in)
 		case "rt-xyz":
 			o := a.ToXYZ(a.FromXYZ(ciexyz.Color{X: c.V[0], Y: c.V[1], Z: c.V[2]}))
 			got, want = ref.V3{float64(o.X), float64(o.Y), float64(o.Z)}, in
@@ -208,7 +212,7 @@ func TestC03(t *testing.T) {
 		for _, x := range sv {
 			for _, y := range sv {
 				for _, z := range sv {
-					for _, dir := range []string{"toXYZ", "fromXYZ", "rt-rgb", "rt-xyz"} {
+					for _, dir := range []string{"toXYZ", "fromXYZ", "rt-rgb", "rt-xyz", "mutated"} {
 						c := Case{a.Name, dir, [3]float32{x, y, z}}
 						ev.Eval(1)
 						ev.NT(ev.Hash("special", a.Name, dir, c.V))
@@ -230,7 +234,7 @@ func TestC03(t *testing.T) {
 	ev.RapidSeed(3)
 	rapid.Check(t, func(rt *rapid.T) {
 		a := &sp.Spaces[rapid.IntRange(0, 3).Draw(rt, "space")]
-		dir := rapid.SampledFrom([]string{"toXYZ", "fromXYZ", "rt-rgb", "rt-xyz"}).Draw(rt, "dir")
+		dir := rapid.SampledFrom([]string{"toXYZ", "fromXYZ", "rt-rgb", "rt-xyz", "mutated"}).Draw(rt, "dir")
 		var v [3]float32
 		for i := range v {
 			v[i] = rapid.Float32Range(-1, 2).Draw(rt, "v")
